@@ -441,6 +441,9 @@ class Parser:
                 raise ParseError(
                     "unexpected block after %s" % self.__get_block_owner().name
                 )
+            # the block belongs to the control command, even if its test
+            # was left without all of its arguments
+            self.__curcommand = self.__get_block_owner()
             self.__push_expected_bracket("right_cbracket", b"}")
             self.__cstate = None
             return True
